@@ -91,7 +91,8 @@ func structural(msg []byte, seids []uint64) []mutant {
 		e := splice(msg, n.off+4, end, nil, n.parents)
 		binary.BigEndian.PutUint16(e[n.off+2:], 0)
 		add(e, false, "empty IE type %d at %d", n.typ, n.off)
-		for _, l := range []int{0, 1, n.plen - 1, n.plen + 1, 0xffff} {
+		// 0xfffc..0xffff: length + 4-octet header wraps around 16 bits; 0x7fff/0x8000: sign boundary
+		for _, l := range []int{0, 1, n.plen - 1, n.plen + 1, 0x7fff, 0x8000, 0xfffb, 0xfffc, 0xfffd, 0xfffe, 0xffff} {
 			if l < 0 || l == n.plen {
 				continue
 			}
@@ -118,7 +119,7 @@ func structural(msg []byte, seids []uint64) []mutant {
 	}
 	// header
 	ml := int(binary.BigEndian.Uint16(msg[2:]))
-	for _, l := range []int{0, 1, 4, ml - 1, ml + 1, ml - 4, 0xffff} {
+	for _, l := range []int{0, 1, 4, ml - 1, ml + 1, ml - 4, 0x7fff, 0x8000, 0xfffb, 0xfffc, 0xfffd, 0xfffe, 0xffff} {
 		if l < 0 || l == ml {
 			continue
 		}
